@@ -11,6 +11,7 @@ import AsmjitVerif.Lemmas.C06Win64
 import AsmjitVerif.Lemmas.C06A64
 import AsmjitVerif.Spec.Machine
 import AsmjitVerif.Lemmas.C06ShuffleLoop
+import AsmjitVerif.Lemmas.C06ShuffleTop
 namespace AsmjitVerif.C06
 open AsmjitVerif.CallConv AsmjitVerif.ABI
 
@@ -289,7 +290,8 @@ example :
     * `first`/`again` – the instruction `emit_arg_move` selects for the variable's (destination, source) register types and type ids
       is a two-register move inside the group that produces destination form (false for K5: AArch64 `mov xd, xs` on a widening
       variable; true for every x86 integer pair by `x86_int_arg_move_extends`);
-    * `swap` – two variables of a swap-capable group that form a 2-cycle are both left in destination form by the exchange (false
+    * `swap` – two variables of a swap-capable group that form a 2-cycle are both left in destination form by the `xchg` of the
+      width the code selects (false
       exactly for K3: a widening variable in an exchanged pair);
     * K4 (destination in another group) is excluded by `WF` itself: every variable's destination lies in the group of its source.
   NOT covered by this theorem (stated, not proved): (1) that `init_work_data` establishes `WF` for the initial context (a fold over
@@ -301,6 +303,79 @@ theorem shuffle_regphase_correct (p : C06S.Params) (hy : C06S.Hyp p) (e : Emit) 
     ∃ M', run p.vis p.f.saOffSp p.f.saOffSa (spId p.cfg.arch) p.M0 e'.out = some M' ∧
       ∀ i, i < p.n → destOk M' i (.reg (groupOf (p.out i).regType) (p.out i).regId) = true :=
   C06S.regphase_correct p hy e M hw fuel e' h
+
+/-- **`shuffle_correct`, register-only assignments, from the real entry point.**  For every assignment in which every argument
+    sits in a register (id < 32, no two arguments in the same register – true of every FuncDetail) and is assigned a register of
+    the same group (`RegOnly`; a destination in another group is the K4 class): if `emit_args_assignment` returns kOk with list
+    `prog`, then `judge (run prog (setup …)) = true`, i.e. every destination holds its argument extended as its type requires.
+    Hypotheses: `Hyp` (K5: the selected moves produce destination form; K3: exchanged 2-cycles need no extension) and
+    `DoneInitOk` (a variable `init_work_data` marks done in place needs no conversion – false e.g. for a float source whose
+    destination is the same vector register typed double).  `Lemmas/C06ShuffleInit|Top` prove that `init_work_data` establishes
+    the invariant (`initWorkData_wf`), so nothing is assumed about the context.
+    Still excluded: stack sources / destinations (phases 1 and 3) and a requested SA register (`args.sa_reg_id`). -/
+theorem shuffle_correct_regs (cfg : Cfg) (f : FrameIn) (vals : List (FuncValue × Option FuncValue))
+    (hr : C06S.RegOnly vals) (hd0 : C06S.DoneInitOk vals) (hy : C06S.Hyp (C06S.paramsOf cfg f vals))
+    (hok : (emitArgsAssignment cfg f 255 vals).1 = none) :
+    judge cfg.arch f vals (emitArgsAssignment cfg f 255 vals).2 = some true :=
+  C06S.shuffle_correct_regs cfg f vals hr hd0 hy hok
+
+/-! non-vacuity: the 2-cycle `rdi -> rsi, rsi -> rdi` of two int64 arguments on x86-64 satisfies every hypothesis, the model returns
+    kOk, and the initial context `init_work_data` builds for it satisfies the invariant `WF` -/
+def vals2 : List (FuncValue × Option FuncValue) :=
+  [(FuncValue.reg 40 6 7, some (FuncValue.reg 40 6 6)), (FuncValue.reg 40 6 6, some (FuncValue.reg 40 6 7))]
+
+theorem vals2_regOnly : C06S.RegOnly vals2 := by
+  constructor
+  · intro i hi
+    have : i = 0 ∨ i = 1 := by simp [vals2] at hi; omega
+    rcases this with rfl | rfl <;> exact ⟨rfl, ⟨rfl, rfl, by decide, rfl, rfl⟩⟩
+  · intro i j hi hj hij
+    have h1 : i = 0 ∨ i = 1 := by simp [vals2] at hi; omega
+    have h2 : j = 0 ∨ j = 1 := by simp [vals2] at hj; omega
+    rcases h1 with rfl | rfl <;> rcases h2 with rfl | rfl <;> first | exact absurd rfl hij | decide
+
+theorem vals2_doneInit : C06S.DoneInitOk vals2 := by
+  intro i hi
+  have : i = 0 ∨ i = 1 := by simp [vals2] at hi; omega
+  rcases this with rfl | rfl <;> decide +kernel
+
+theorem vals2_moves : ∀ i ∈ List.range 2, ∀ d ∈ List.range 32, ∀ s ∈ List.range 32,
+    let p := C06S.paramsOf { arch := .x64 } frX64 vals2
+    C06S.moveOkAt p.cfg p.vis (p.out i).regType (p.out i).typeId (p.src i).regType (p.src i).typeId (initTok p.vis i) d s = true ∧
+    C06S.moveOkAt p.cfg p.vis (p.out i).regType (p.out i).typeId (p.out i).regType (p.out i).typeId ⟨i, false, true⟩ d s = true ∧
+    C06S.moveOkAt p.cfg p.vis (p.out i).regType (p.out i).typeId (p.out i).regType (p.out i).typeId ⟨i, true, true⟩ d s = true := by
+  decide +kernel
+
+theorem vals2_swaps : ∀ i ∈ List.range 2, ∀ j ∈ List.range 2,
+    let p := C06S.paramsOf { arch := .x64 } frX64 vals2
+    (C06S.swapTok p.vis (C06S.swapRt (p.src i).regType (p.src j).regType) (initTok p.vis i)).dv = true ∧
+    (C06S.swapTok p.vis (C06S.swapRt (p.src i).regType (p.src j).regType) (initTok p.vis j)).dv = true := by
+  decide +kernel
+
+theorem vals2_hyp : C06S.Hyp (C06S.paramsOf { arch := .x64 } frX64 vals2) := by
+  refine ⟨?_, ?_, ?_⟩
+  · intro i d s hi hd hs
+    exact (vals2_moves i (List.mem_range.2 hi) d (List.mem_range.2 hd) s (List.mem_range.2 hs)).1
+  · intro i d s b hi hd hs
+    have := vals2_moves i (List.mem_range.2 hi) d (List.mem_range.2 hd) s (List.mem_range.2 hs)
+    cases b
+    · exact this.2.1
+    · exact this.2.2
+  · intro i j hi hj _ _ _ _ _
+    exact vals2_swaps i (List.mem_range.2 hi) j (List.mem_range.2 hj)
+
+example : (emitArgsAssignment { arch := .x64 } frX64 255 vals2).1 = none ∧
+    judge .x64 frX64 vals2 (emitArgsAssignment { arch := .x64 } frX64 255 vals2).2 = some true :=
+  ⟨by decide +kernel, shuffle_correct_regs _ _ _ vals2_regOnly vals2_doneInit vals2_hyp (by decide +kernel)⟩
+
+/-- a concrete reachable initial context satisfies the invariant -/
+example : ∃ ctx, initWorkData .x64 frX64 255 vals2 = .ok ctx ∧
+    C06S.WF (C06S.paramsOf { arch := .x64 } frX64 vals2) { ctx := ctx } (C06S.paramsOf { arch := .x64 } frX64 vals2).M0 := by
+  cases h : initWorkData .x64 frX64 255 vals2 with
+  | error e =>
+    have : (match initWorkData .x64 frX64 255 vals2 with | .ok _ => true | .error _ => false) = true := by decide +kernel
+    rw [h] at this; exact absurd this (by simp)
+  | ok ctx => exact ⟨ctx, rfl, (C06S.initWorkData_wf { arch := .x64 } frX64 vals2 vals2_regOnly vals2_doneInit ctx h).1⟩
 
 -- non-vacuity of the selection hypotheses: an x86-64 int64 -> int64 variable satisfies `first` and `again` for every register pair,
 -- and a 2-cycle of such variables satisfies `swap`
